@@ -5,6 +5,7 @@ import ScionTime.Proofs.ServerInv
 import ScionTime.Proofs.ServerScan2
 namespace ScionTime.Server
 open ScionTime.Time64
+variable {P : Entry → Prop}
 
 theorem mem_of_getElem?_map {buf : List Entry} {i : Nat} {v : T64}
     (h : (buf[i]?).map (·.rx) = some v) : ∃ e ∈ buf, e.rx = v := by
@@ -24,16 +25,16 @@ theorem find_setBuf (m : Map) (id : Nat) (g : List Entry → List Entry) (k : Na
 
 /-- the buffer written at the end of `handleRequest` satisfies the per-item invariant -/
 theorem storeEntry_ok (icap id : Nat) (hic : 1 ≤ icap) (buf : List Entry) (q q' : T64)
-    (ok : ItemOk icap id buf q) (org : T64) (sc : Scan) (e : Entry)
+    (ok : ItemOk P icap id buf q) (org : T64) (sc : Scan) (e : Entry)
     (hnc : ∀ x ∈ buf, x.rx ≠ e.rx) (hq : ∀ x ∈ buf, le64 x.rx q') (hq' : le64 e.rx q')
-    (ho : e.owner = id) : ItemOk icap id (storeEntry icap buf sc e) q' := by
+    (ho : e.owner = id) (hP : P e) : ItemOk P icap id (storeEntry icap buf sc e) q' := by
   have hnotin : e.rx ∉ buf.map (·.rx) := by
     intro hm
     obtain ⟨x, hx, hxe⟩ := List.mem_map.1 hm
     exact hnc x hx hxe
-  have hset : ∀ i, ItemOk icap id (buf.set i e) q' := by
+  have hset : ∀ i, ItemOk P icap id (buf.set i e) q' := by
     intro i
-    refine ⟨by rw [List.length_set]; exact ok.len_pos, by rw [List.length_set]; exact ok.len_le, ?_, ?_, ?_⟩
+    refine ⟨by rw [List.length_set]; exact ok.len_pos, by rw [List.length_set]; exact ok.len_le, ?_, ?_, ?_, ?_⟩
     · rw [List.map_set]; exact nodup_set_notin _ _ _ ok.distinct hnotin
     · intro x hx
       rcases List.mem_or_eq_of_mem_set hx with hx | hx
@@ -43,15 +44,19 @@ theorem storeEntry_ok (icap id : Nat) (hic : 1 ≤ icap) (buf : List Entry) (q q
       rcases List.mem_or_eq_of_mem_set hx with hx | hx
       · exact ok.owner x hx
       · subst hx; exact ho
+    · intro x hx
+      rcases List.mem_or_eq_of_mem_set hx with hx | hx
+      · exact ok.good x hx
+      · subst hx; exact hP
   unfold storeEntry
   split
   · exact hset _
   · split
     · split
       · exact hset _
-      · exact ⟨ok.len_pos, ok.len_le, ok.distinct, hq, ok.owner⟩
+      · exact ⟨ok.len_pos, ok.len_le, ok.distinct, hq, ok.owner, ok.good⟩
     · rename_i hlen
-      refine ⟨by simp, ?_, ?_, ?_, ?_⟩
+      refine ⟨by simp, ?_, ?_, ?_, ?_, ?_⟩
       · have := ok.len_le; simp only [List.length_append, List.length_cons, List.length_nil]; omega
       · rw [List.map_append, List.nodup_append]
         refine ⟨ok.distinct, by simp, ?_⟩
@@ -66,6 +71,10 @@ theorem storeEntry_ok (icap id : Nat) (hic : 1 ≤ icap) (buf : List Entry) (q q
         rcases List.mem_append.1 hx with hx | hx
         · exact ok.owner x hx
         · simp at hx; subst hx; exact ho
+      · intro x hx
+        rcases List.mem_append.1 hx with hx | hx
+        · exact ok.good x hx
+        · simp at hx; subst hx; exact hP
 
 theorem same_setQval_self (m : Map) (id : Nat) (it : Item) (hit : m.find id = some it) :
     Same (setQval m id it.qval) m := by
@@ -101,17 +110,33 @@ theorem hr_fix_spec (st : State) (h : WF st) (id : Nat) (it : Item) (hit : st.it
       intro i' v' e; cases e; simpa using ha
 
 theorem inv0_handleRequestG (strict : Bool) (cap icap : Nat) (hcap : 1 ≤ cap) (hic : 1 ≤ icap)
-    (hic2 : icap < 1000000000) (st : State) (inv : Inv0 cap icap st) (id : Nat) (req : Req)
-    (rxt now : Int) : Inv0 cap icap (handleRequestG strict cap icap st id req rxt now).st := by
+    (hic2 : icap < 1000000000) (st : State) (inv : Inv0 P cap icap st) (id : Nat) (req : Req)
+    (rxt now : Int)
+    (hP : ∀ a b : Int, rxt ≤ a → (strict = true → a < b) → (b ≤ now ∨ b ≤ a + 1) →
+      P ⟨ofTime a, ofTime b, id⟩) :
+    Inv0 P cap icap (handleRequestG strict cap icap st id req rxt now).st := by
   unfold handleRequestG
   simp only
+  have htxt0 : (strict = true → rxt < (if (strict && !decide (rxt < now)) = true then rxt + 1 else now)) ∧
+      ((if (strict && !decide (rxt < now)) = true then rxt + 1 else now) ≤ now ∨
+       (if (strict && !decide (rxt < now)) = true then rxt + 1 else now) = rxt + 1) := by
+    cases strict <;> simp <;> split <;> omega
   split
   · -- existing client
     rename_i it hit
     have ok := inv.items id it hit
-    generalize (if (strict && !decide (rxt < now)) = true then rxt + 1 else now) = txt0
+    generalize (if (strict && !decide (rxt < now)) = true then rxt + 1 else now) = txt0 at htxt0 ⊢
     have hnc := uniq_spec it.buf rxt txt0 (by have := ok.len_le; omega)
-    generalize (uniq it.buf rxt txt0 (it.buf.length + 1)) = u at hnc ⊢
+    have hmono := uniq_mono it.buf (it.buf.length + 1) rxt txt0
+    generalize (uniq it.buf rxt txt0 (it.buf.length + 1)) = u at hnc hmono ⊢
+    have hPe : P ⟨ofTime u.1, ofTime u.2, id⟩ := by
+      apply hP u.1 u.2 hmono.1
+      · intro hs; exact hmono.2.2.2.1 (htxt0.1 hs)
+      · rcases hmono.2.2.2.2.2 with c | c
+        · rcases htxt0.2 with d | d
+          · left; omega
+          · right; omega
+        · right; exact c
     have hnc' : ∀ x ∈ it.buf, x.rx ≠ ofTime u.1 := by
       intro x hx e
       have : collides it.buf (ofTime u.1) = true := (collides_iff _ _).2 ⟨x, hx, e⟩
@@ -166,7 +191,7 @@ theorem inv0_handleRequestG (strict : Bool) (cap icap : Nat) (hcap : 1 ≤ cap) 
           simp only [if_true, hit, Option.map_some, core, Option.some.injEq, Prod.mk.injEq] at hs
           simp only
           rw [← hs.1, ← hs.2]
-          exact storeEntry_ok icap id hic it.buf it.qval q' ok req.org sc _ hnc' hbound.1 hbound.2 rfl
+          exact storeEntry_ok icap id hic it.buf it.qval q' ok req.org sc _ hnc' hbound.1 hbound.2 rfl hPe
       · simp only [e, if_false] at hf
         obtain ⟨it0, h1, h2, h3⟩ := same_find s1 hf
         rw [find_setQval] at h1
@@ -174,10 +199,15 @@ theorem inv0_handleRequestG (strict : Bool) (cap icap : Nat) (hcap : 1 ≤ cap) 
         rw [← h2, ← h3]; exact inv.items k it0 h1
   · -- new client
     rename_i hnone
-    generalize (if (strict && !decide (rxt < now)) = true then rxt + 1 else now) = txt0
+    generalize (if (strict && !decide (rxt < now)) = true then rxt + 1 else now) = txt0 at htxt0 ⊢
+    have hPe : P ⟨ofTime rxt, ofTime txt0, id⟩ := by
+      apply hP rxt txt0 (Int.le_refl _) htxt0.1
+      rcases htxt0.2 with d | d
+      · left; exact d
+      · right; omega
     -- the state after the optional eviction
     have hev : ∀ (ev : State × Option Nat), ev = evict cap st (ofTime rxt) →
-        WF ev.1 ∧ ev.1.items.length ≤ cap ∧ ev.1.items.find id = none ∧ ItemsOk icap ev.1.items := by
+        WF ev.1 ∧ ev.1.items.length ≤ cap ∧ ev.1.items.find id = none ∧ ItemsOk P icap ev.1.items := by
       intro ev hev
       unfold evict at hev
       split at hev
@@ -230,9 +260,10 @@ theorem inv0_handleRequestG (strict : Bool) (cap icap : Nat) (hcap : 1 ≤ cap) 
             simp only [if_true, Option.map_some, core, Option.some.injEq, Prod.mk.injEq] at hs
             simp only
             rw [← hs.1, ← hs.2]
-            refine ⟨by simp, by simpa using hic, by simp, ?_, ?_⟩
+            refine ⟨by simp, by simpa using hic, by simp, ?_, ?_, ?_⟩
             · intro x hx; simp at hx; subst hx; exact le64_refl _
             · intro x hx; simp at hx; subst hx; rfl
+            · intro x hx; simp at hx; subst hx; exact hPe
         · simp only [e, if_false] at hf
           obtain ⟨it0, h1, h2, h3⟩ := same_find s2 hf
           rw [Map.find_cons] at h1
@@ -243,9 +274,9 @@ theorem inv0_handleRequestG (strict : Bool) (cap icap : Nat) (hcap : 1 ≤ cap) 
 /-! ### updateTX -/
 
 theorem itemsOk_update (icap : Nat) (m m1 : Map) (id : Nat) (it : Item) (q' : T64)
-    (g : List Entry → List Entry) (ok : ItemsOk icap m) (hit : m.find id = some it)
-    (s1 : Same (setQval m id q') m1) (hnew : ItemOk icap id (g it.buf) q') :
-    ItemsOk icap (setBuf m1 id g) := by
+    (g : List Entry → List Entry) (ok : ItemsOk P icap m) (hit : m.find id = some it)
+    (s1 : Same (setQval m id q') m1) (hnew : ItemOk P icap id (g it.buf) q') :
+    ItemsOk P icap (setBuf m1 id g) := by
   intro k it2 hf
   rw [find_setBuf] at hf
   by_cases e : id = k
@@ -278,11 +309,11 @@ theorem set_eq_self_of_getElem? {α} : ∀ (l : List α) (i : Nat) (a : α), l[i
     | zero => simp at h; subst h; rfl
     | succ i => simp at h; simp [ih i a h]
 
-theorem set_tx_ok (icap id : Nat) (buf : List Entry) (q : T64) (ok : ItemOk icap id buf q)
-    (x : Nat) (ex : Entry) (hx : buf[x]? = some ex) (t : T64) :
-    ItemOk icap id (buf.set x { ex with tx := t }) q := by
+theorem set_tx_ok (icap id : Nat) (buf : List Entry) (q : T64) (ok : ItemOk P icap id buf q)
+    (x : Nat) (ex : Entry) (hx : buf[x]? = some ex) (t : T64) (hP : P { ex with tx := t }) :
+    ItemOk P icap id (buf.set x { ex with tx := t }) q := by
   have hmem : ex ∈ buf := List.mem_of_getElem? hx
-  refine ⟨by rw [List.length_set]; exact ok.len_pos, by rw [List.length_set]; exact ok.len_le, ?_, ?_, ?_⟩
+  refine ⟨by rw [List.length_set]; exact ok.len_pos, by rw [List.length_set]; exact ok.len_le, ?_, ?_, ?_, ?_⟩
   · rw [List.map_set]
     rw [set_eq_self_of_getElem? _ _ _ (by simp [hx])]
     exact ok.distinct
@@ -294,6 +325,10 @@ theorem set_tx_ok (icap id : Nat) (buf : List Entry) (q : T64) (ok : ItemOk icap
     rcases List.mem_or_eq_of_mem_set he with he | he
     · exact ok.owner e he
     · subst he; exact ok.owner ex hmem
+  · intro e he
+    rcases List.mem_or_eq_of_mem_set he with he | he
+    · exact ok.good e he
+    · subst he; exact hP
 
 theorem utx_fix_spec (st : State) (h : WF st) (id : Nat) (it : Item) (hit : st.items.find id = some it)
     (m0 m1 : Option (Nat × T64)) (rxt64 : T64) :
@@ -331,15 +366,21 @@ theorem utx_fix_spec (st : State) (h : WF st) (id : Nat) (it : Item) (hit : st.i
         exact ⟨v1, a, c, b, d, Or.inr ⟨i0, i1, by rw [hv], rfl, rfl⟩⟩
       · exact dflt (by simp [utxFix, hv])
 
-theorem inv0_updateTX (cap icap : Nat) (st : State) (inv : Inv0 cap icap st) (id : Nat)
-    (rxt txt1 : Int) : Inv0 cap icap (updateTX st id rxt txt1).1 := by
+theorem inv0_updateTX (cap icap : Nat) (st : State) (inv : Inv0 P cap icap st) (id : Nat)
+    (rxt txt1 : Int)
+    (hP : ∀ (e : Entry) (t : Int), P e → e.rx = ofTime rxt → rxt < t → (t = txt1 ∨ t = rxt + 1) →
+      P { e with tx := ofTime t }) :
+    Inv0 P cap icap (updateTX st id rxt txt1).1 := by
   unfold updateTX
   simp only
+  have htxt : rxt < (if ¬ rxt < txt1 then rxt + 1 else txt1) ∧
+      ((if ¬ rxt < txt1 then rxt + 1 else txt1) = txt1 ∨ (if ¬ rxt < txt1 then rxt + 1 else txt1) = rxt + 1) := by
+    split <;> omega
   split
   · exact inv
   · rename_i it hit
     have ok := inv.items id it hit
-    generalize (if ¬ rxt < txt1 then rxt + 1 else txt1) = txt
+    generalize (if ¬ rxt < txt1 then rxt + 1 else txt1) = txt at htxt ⊢
     have s2 := scan2_inv it.buf (ofTime rxt)
     generalize scan2 it.buf (ofTime rxt) = sc at s2 ⊢
     split
@@ -360,7 +401,9 @@ theorem inv0_updateTX (cap icap : Nat) (st : State) (inv : Inv0 cap icap st) (id
         · simp only [setBuf, Map.length_modify]; exact inv.size
         · exact itemsOk_update icap st.items st.items id it it.qval
             (fun b => b.set x { (it.buf.getD x defaultEntry) with tx := ofTime txt }) inv.items hit
-            (same_setQval_self _ _ _ hit) (set_tx_ok icap id it.buf it.qval ok x _ hxe _)
+            (same_setQval_self _ _ _ hit) (set_tx_ok icap id it.buf it.qval ok x _ hxe _
+              (hP _ txt (ok.good _ (List.mem_of_getElem? hxe))
+                (by rw [List.getD_eq_getElem?_getD, List.getElem?_eq_getElem hxl]; exact hxrx) htxt.1 htxt.2))
       · split
         · -- the whole item is removed
           obtain ⟨a, b, c, d⟩ := remove_spec st inv.wf id it hit
@@ -386,11 +429,11 @@ theorem inv0_updateTX (cap icap : Nat) (st : State) (inv : Inv0 cap icap st) (id
           refine ⟨wf_modify st1 w1 id _ (fun _ => rfl), ?_, ?_⟩
           · simp only [setBuf, Map.length_modify, l1]; exact inv.size
           · refine itemsOk_update icap st.items st1.items id it q' (fun b => swapRemove b x) inv.items hit s1 ?_
-            show ItemOk icap id (swapRemove it.buf x) q'
+            show ItemOk P icap id (swapRemove it.buf x) q'
             have hlp := ok.len_pos
             refine ⟨by rw [length_swapRemove _ _ hxl]; omega,
               by rw [length_swapRemove _ _ hxl]; have := ok.len_le; omega,
-              nodup_swapRemove _ _ hxl ok.distinct, ?_, ?_⟩
+              nodup_swapRemove _ _ hxl ok.distinct, ?_, ?_, ?_⟩
             · intro e he
               obtain ⟨hm, hne⟩ := rx_ne_of_mem_swapRemove hxl ok.distinct he
               rcases hq' with c | ⟨i0, i1, c0, c1⟩
@@ -400,5 +443,7 @@ theorem inv0_updateTX (cap icap : Nat) (st : State) (inv : Inv0 cap icap st) (id
                 · exact d
             · intro e he
               exact ok.owner e (rx_ne_of_mem_swapRemove hxl ok.distinct he).1
+            · intro e he
+              exact ok.good e (rx_ne_of_mem_swapRemove hxl ok.distinct he).1
 
 end ScionTime.Server
